@@ -131,7 +131,9 @@ def _gen_req(tape, budget, npaths, safe, state, held):
                 # holding only shared: exclusive would be an upgrade (a waiting one if
                 # reentrant); allow a single waiting upgrader per program
                 want_ex = tape.draw(state['bias']['upgrade'], 'upgrade') == state['bias']['upgrade'] - 1
-                if want_ex and reentrant and state['upgraders'] >= 1:
+                if want_ex and reentrant and (state['upgraders'] >= 1 or path != top):
+                    # a waiting upgrade behaves like a fresh request for that path: only
+                    # allowed on the highest path held (global order) and once per program
                     want_ex = False
                 if want_ex and reentrant:
                     state['upgraders'] += 1
